@@ -101,13 +101,16 @@ def cases(tier, seed):
     # two-octet escapes must survive a sink that takes one octet at a time
     scripts_plain = ["-", "k1", "k1,k1,k1,k1,k1,k1,k1,k1", "k2,k1,k3,k1,k1,k2", "k1,k2,k1,k2,k1,k2,k1,k2,k1,k2"]
     scripts_soft = ["i", "a,k1", "k1,i,k1,a,k1", "z", "k1,z", "k2,i,i,k1", "k1,k1,h:eio", "h:epipe", "k3,h:eio"]
+    # an octet-style sink (a transmit register) that is busy exactly once, at every call position in turn:
+    # inside an escape pair the octet is asked for again, in front of a plain octet the answer goes to the caller
+    scripts_busy = [",".join(["k1"] * j + [b]) for j in range(0, 8) for b in ("a", "i", "z")]
     pays = ["c0", "db", "c0db", "41c0", "dbdb41c0c0", "4142", "-", "dcdd", "41db42c043"] + \
            ["".join(rnd.choice(ALPHA) for _ in range(rnd.randint(1, 6))) for _ in range(10 if tier == "quick" else 150)]
     ops = []
     for p in pays:
         for sof in "01":
             for kk in "co":
-                for ksc in scripts_plain + (scripts_soft if kk == "c" else ["k1,k1,h:eio", "h:epipe"]):
+                for ksc in scripts_plain + scripts_soft + (scripts_busy if kk == "o" else []):
                     sk = rnd.choice("co")
                     ssc = rnd.choice(scripts_plain if sk == "c" else ["-"])
                     ops.append("slipx.enc %s %s %s %s %s %s" % (sof, sk, p, ssc, kk, ksc))
